@@ -1,9 +1,20 @@
 """C08 — limb representation: normalisation, shifts, encoding."""
 PROPS_VO = "Props/C08.vo"
+EXTRA_VO = ["Props/C08Encode.vo"]
 PROFILES = ["release"]
 RULE = ("harness c08: digit/carry kernels (both widths, every radix), all step kernels on ZnxRef + four backends "
-        "with SIMD-tail lengths, boundary-dictionary values; distinct = distinct (op, params, inputs)")
+        "with SIMD-tail lengths, boundary-dictionary values; vector-level normalise (same/cross radix, big accumulators of both families, fused forms), "
+        "lsh/rsh families on flat buffers through Module<BE>; encode/decode (i64, i128, coefficient, float) over a (b, k) grid with boundary values; "
+        "distinct = distinct (op, params, inputs)")
 ASSUMPTIONS = ["release-mode (wrapping) integer semantics for the kernels; debug-mode overflow panics are outside this check"]
 
 def classify(record):
+    # encode/decode records (83xx) are classified by the encode/decode development
+    try:
+        from props import c08enc
+        key = c08enc.classify(record)
+        if key:
+            return key
+    except Exception:
+        pass
     return None
